@@ -158,6 +158,13 @@ def conformance(chk, inst, aut, ids, wit, apath, nsim):
             for post in ([], [5 % a], [1 % a, 0]):
                 extra.append(pre + [0, a - 1] + post)
                 extra.append(pre + [a - 1, 0] + post)
+    # long strings (the any-length claim is about the automaton; that the code IS that fold must also be seen beyond the lengths
+    # a table of precomputed rows or a wrong period would still cover)
+    rl = random.Random('%s/long/%s' % (chk.seed, inst['name']))
+    na = len(inst['alphabet']) - (1 if inst.get('special') else 0)
+    for n in (36, 37, 38, 40, 41, 42, 64, 65, 66, 100, 129, 257):
+        for _ in range(2):
+            extra.append([rl.randrange(na) for _ in range(n)])
     events = []
     mod, kw = inst['mod'], inst['kw']
     A = inst['alphabet']
